@@ -76,3 +76,25 @@ def run(ctx):
         assumptions=["the database is not mutated while it is shared (the documented reader lock: RwLock read guards)",
                      "opening the existing database file for a private handle succeeds"],
     )
+
+
+def search(ctx, broken):
+    """a proof or the correspondence broke without a failing input: look for one with a larger stress budget
+    (more threads and queries, other seeds) on the implementation"""
+    tdir, blog = vlib.cargo_build("hx_core", "release")
+    if tdir is None:
+        return []
+    found = []
+    for k in range(3):
+        w = os.path.join(ctx.workdir, "search%d" % k)
+        os.makedirs(w, exist_ok=True)
+        cmd = "ulimit -v 16000000; exec %s c23 --seed %d --n %d --threads %d --dbs %d --small %d --out %s" % (
+            os.path.join(tdir, "hx_core"), ctx.seed * 7919 + k + 1, 300, 48, 6, 600, w)
+        rc, out = vlib.sh(cmd, timeout=3000)
+        lines = read_lines(os.path.join(w, "oracle.txt")) + read_lines(os.path.join(w, "oracle_live.txt"))
+        if rc != 0:
+            lines.append("conc-panic process aborted (exit %s) on %s: %s" % (rc, " ".join(read_lines(os.path.join(w, "progress.txt"))), out[-400:].replace("\n", " | ")))
+        found += [dict(cls=l.split(" ")[0], what=l[:5000]) for l in lines]
+        if found:
+            break
+    return found[:5]
